@@ -134,6 +134,67 @@ theorem refcount_is_owners (es : List FEv) (s : FS) (h : FS.init.run es = some s
     (s.obj o).ref = ((s.obj o).holds : Int) + (if (s.obj o).tbl then 1 else 0) :=
   ((inv_run _ _ es inv_init h).objs o ho).refEq
 
+/-- After the disconnect the tear-down of the fids cannot get stuck: in every state in which
+    `conn.done` is closed and something is still in flight, some region is enabled — Conn.close
+    can copy the table or visit the next fid, a request can release what it holds, a DecRef or a
+    destroy() can take its next step.  (With `disconnect_destroys_every_fid`: the only state in
+    which nothing remains to be done is the one in which every fid has been reported destroyed.) -/
+theorem fid_teardown_never_stuck (s : FS) (hc : s.closed = true) (hnq : ¬ s.quiescent) :
+    ∃ e s', s.step e = some s' := by
+  cases hs : s.snap with
+  | none =>
+    refine ⟨.snapshot ((List.range s.n).filter (fun o => decide (s.inpool o))),
+      { s with snap := some ((List.range s.n).filter (fun o => decide (s.inpool o))) }, ?_⟩
+    simp only [FS.step]
+    rw [if_pos]
+    refine ⟨hc, hs, ?_, ?_, ?_⟩
+    · exact List.Pairwise.filter _ List.nodup_range
+    · intro o ho
+      simp only [List.mem_filter, List.mem_range, decide_eq_true_eq] at ho
+      exact ho
+    · intro o ho hin
+      simp only [List.mem_filter, List.mem_range, decide_eq_true_eq]
+      exact ⟨ho, hin⟩
+  | some l =>
+    cases l with
+    | cons o rest =>
+      refine ⟨.visit, ?_⟩
+      simp only [FS.step, hs]
+      split
+      · exact ⟨_, rfl⟩
+      · exact ⟨_, rfl⟩
+    | nil =>
+      have hex : ∃ o, o < s.n ∧ ¬ ((s.obj o).holds = 0 ∧ (s.obj o).dyA = 0 ∧ (s.obj o).dyB = 0 ∧ (s.obj o).calls = 0) := by
+        apply Classical.byContradiction
+        intro hne
+        apply hnq
+        refine ⟨hs, fun o ho => ?_⟩
+        apply Classical.byContradiction
+        intro hn
+        exact hne ⟨o, ho, hn⟩
+      obtain ⟨o, ho, hne⟩ := hex
+      by_cases h1 : 1 ≤ (s.obj o).holds
+      · exact ⟨.dec o false, by simp [FS.step, ho, h1]⟩
+      by_cases h2 : 1 ≤ (s.obj o).dyA
+      · refine ⟨.unpool o, ?_⟩
+        simp only [FS.step]
+        rw [if_pos ⟨ho, h2⟩]
+        split
+        · exact ⟨_, rfl⟩
+        · exact ⟨_, rfl⟩
+      by_cases h3 : 1 ≤ (s.obj o).dyB
+      · refine ⟨.dstr o, ?_⟩
+        simp only [FS.step]
+        rw [if_pos ⟨ho, h3⟩]
+        split
+        · exact ⟨_, rfl⟩
+        · exact ⟨_, rfl⟩
+      by_cases h4 : 1 ≤ (s.obj o).calls
+      · exact ⟨.call o, by simp [FS.step, ho, h4]⟩
+      exfalso
+      apply hne
+      omega
+
 /-! non-vacuity: a fid is created and retained; a request is using it when the client disconnects;
     Conn.close destroys it, the request's release afterwards does not destroy it again; the end
     state is quiescent. -/
@@ -147,6 +208,58 @@ example : (FS.init.run exSched).map (fun s => ((s.obj 0).nd, (s.obj 0).ref, (s.o
 instance (s : FS) : Decidable s.quiescent := by unfold FS.quiescent; infer_instance
 
 example : (FS.init.run exSched).all (fun s => decide s.quiescent) = true := by decide
+
+/-! ### what the code did before two repairs, and why the theorems above could not be proved of it
+
+    F-29: `retain` tested `conn.done` before it took the fid lock (`retainStale`: the increment
+    made on the strength of a test that is out of date).  F-30: `DecRef` deleted the table entry
+    by number (`unpoolByNumber`).  With either, a schedule ends quiescent with a fid that was
+    never reported destroyed; the second also makes a valid fid unknown.  Both schedules were
+    replayed on the real code (witness/life_test.go) before it was repaired. -/
+
+inductive OldEv where
+  | ev (e : FEv)
+  | retainStale (o : Nat)
+  | unpoolByNumber (o : Nat)
+
+def stepOld (s : FS) : OldEv → Option FS
+  | .ev e => s.step e
+  | .retainStale o =>
+    let x := s.obj o
+    if o < s.n ∧ x.pending = true ∧ 1 ≤ x.holds then
+      some (setO s o { x with ref := x.ref + 1, tbl := true, pending := false })
+    else none
+  | .unpoolByNumber o =>
+    let x := s.obj o
+    if o < s.n ∧ 1 ≤ x.dyA then
+      some { (setO s o { x with dyA := x.dyA - 1, dyB := x.dyB + 1 }) with pool := updP s.pool x.num none }
+    else none
+
+def runOld (s : FS) : List OldEv → Option FS
+  | [] => some s
+  | e :: es => (stepOld s e).bind (fun s' => runOld s' es)
+
+/-- F-29: the client disconnects between retain's test and its increment -/
+theorem stale_retain_leaks_a_fid :
+    (runOld FS.init [.ev (.new 5), .ev .closeDone, .ev (.snapshot [0]), .ev .visit, .retainStale 0,
+      .ev (.dec 0 false)]).map (fun s => (decide s.quiescent, (s.obj 0).nd, (s.obj 0).destroyed)) =
+    some (true, 0, false) := by decide
+
+/-- F-30: a request takes a reference on a fid whose Tclunk has dropped the last one; its own
+    release then deletes the fid the client has made under the number since (object 1): the
+    lookup of number 5 finds nothing although fid 5 is valid, and at the end of the disconnect
+    object 1 has never been reported destroyed -/
+theorem unpool_by_number_loses_a_valid_fid :
+    (runOld FS.init [.ev (.new 5), .ev (.retain 0), .ev (.dec 0 false),
+      .ev (.look 5 (some 0)), .ev (.get 0), .ev (.dec 0 true), .ev (.dec 0 false),
+      .ev (.look 5 (some 0)), .ev (.get 0), .ev (.dec 0 false),
+      .unpoolByNumber 0, .ev (.dstr 0), .ev (.call 0),
+      .ev (.new 5), .ev (.retain 1), .ev (.dec 1 false),
+      .unpoolByNumber 0, .ev (.dstr 0),
+      .ev (.look 5 none),
+      .ev .closeDone, .ev (.snapshot []), ]).map
+      (fun s => (decide s.quiescent, (s.obj 1).tbl, s.pool 5, (s.obj 1).nd, (s.obj 0).nd)) =
+    some (true, true, none, 0, 1) := by decide
 
 end fids
 
